@@ -147,6 +147,10 @@ func genBinScenario(g *Gen) Case {
 	t.file(VB+"/default_layerconfig.skel", "import proc /proc /proc\nimport rbind $$base/packages /var/cache/binpkgs\n")
 	t.dir(VB + "/hostsrc/sub")
 	names := []string{"b0", "b1", "x_y", "é1"}
+	if g.Chance(1, 4) {
+		// a very long name next to a short one (the listing table must cope)
+		names[1] = strings.Repeat("n", 45+g.Intn(30))
+	}
 	n := 1 + g.Intn(3)
 	have := []string{}
 	for i := 0; i < n; i++ {
@@ -194,7 +198,10 @@ func genBinScenario(g *Gen) Case {
 				words = append(words, "-all")
 			}
 		case 10:
-			words = []string{g.Pick("list", "status", "shake", "init", "frobnicate")}
+			words = []string{g.Pick("list", "list", "status", "shake", "init", "frobnicate")}
+			if words[0] == "list" && g.Chance(1, 2) {
+				words = append(words, "-v")
+			}
 		case 11:
 			words = []string{"status", pick()}
 		}
